@@ -9,7 +9,7 @@
    ghost log with one entry (dependent tree node, requirement, target tree node, fresh?) per
    edge of the graph. *)
 From DepsDev Require Import Lib.Base Resolve.Npm Resolve.Npm_lemmas Resolve.Npm_inv Resolve.Npm_loop
-  Resolve.Npm_proofs Resolve.Npm_tree Resolve.Npm_lookup Resolve.Npm_nopanic Resolve.Npm_witness_proofs Resolve.Npm_kept_proofs Extract.CasesNpm.
+  Resolve.Npm_proofs Resolve.Npm_tree Resolve.Npm_lookup Resolve.Npm_nopanic Resolve.Npm_witness_proofs Resolve.Npm_kept_proofs Resolve.Npm_fresh_proofs Extract.CasesNpm.
 
 Section C06.
   Variable c_version : vkey -> res version.
@@ -78,6 +78,21 @@ Section C06.
       c_matching (r_key (l_req l)) = Ok dvers /\ last_opt dvers = Some wp /\
       pick_rule (concrete_for_latest c_matching wp) dvers wp (t_ver t).
   Proof. exact (pick c_version c_requirements c_matching sem_match). Qed.
+
+  (* 4a. Which installs are fresh is read off the install tree, not off a label: every
+     installed copy (a tree node that has a parent and is not a bundled copy) is the target of
+     a log entry marked fresh, so C06_pick applies to it; and the edge of every fresh entry
+     carries the Selector attribute. *)
+  Theorem C06_fresh_from_tree : forall fuel root r, resolve fuel root = Ok r ->
+    Forall2 sel_pair (r_log r) (g_edges (r_graph r)) /\
+    forall i n, nth_error (r_tree r) i = Some n -> installed n ->
+      exists l, In l (r_log r) /\ l_to l = i /\ l_fresh l = true.
+  Proof. exact (selected c_version c_requirements c_matching sem_match). Qed.
+
+  Theorem C06_selector_edge : forall fuel root r, resolve fuel root = Ok r ->
+    forall i n, nth_error (r_tree r) i = Some n -> installed n ->
+      exists e d, In e (g_edges (r_graph r)) /\ e_to e = t_id n /\ e_req e = r_ver d /\ e_type e = selector (r_type d).
+  Proof. exact (selector_edge c_version c_requirements c_matching sem_match). Qed.
 
   (* ... which is the version tagged latest whenever the client lists it last among the
      matching versions (the in-memory client does, unless latest is a prerelease next to
@@ -148,6 +163,8 @@ Print Assumptions C06_log_edges.
 Print Assumptions C06_requirements_kept.
 Print Assumptions C06_complete_by_text.
 Print Assumptions C06_child_key.
+Print Assumptions C06_fresh_from_tree.
+Print Assumptions C06_selector_edge.
 
 (* The lookup clause is false when aliases are allowed (F-C06-1): a client without derived
    packages, with name-faithful MatchingVersions answers and distinct requirement names, on
